@@ -278,7 +278,7 @@ pub fn format_blame_metadata(
                 }))
             }
             Some(Placeholder::Str("author")) => Some(Cow::from(blame.author)),
-            Some(Placeholder::Str("commit")) => Some(delta::format_raw_line(blame.commit, config)),
+            Some(Placeholder::Str("commit")) => Some(Cow::from(blame.commit)),
             None => None,
             _ => unreachable!("Unexpected `git blame` input"),
         };
@@ -286,12 +286,19 @@ pub fn format_blame_metadata(
             // Unicode modifier should not be counted as character to allow a consistent padding
             let unicode_modifier_width = (field.as_ref().chars().count())
                 .saturating_sub(UnicodeWidthStr::width(field.as_ref()));
-            s.push_str(&format::pad(
+            let padded = format::pad(
                 &field,
                 width + unicode_modifier_width,
                 alignment_spec,
                 placeholder.precision,
-            ))
+            );
+            if placeholder.placeholder == Some(Placeholder::Str("commit")) {
+                // Link the commit after padding: the escape sequences of a hyperlink have no
+                // width, and a precision must not cut them.
+                s.push_str(&delta::format_raw_line(&padded, config))
+            } else {
+                s.push_str(&padded)
+            }
         }
         suffix = placeholder.suffix.as_str();
     }
